@@ -110,6 +110,22 @@ func (coordC12) Check(w *coordWorld, st *coordStep) []xstate.Violation {
 		out = append(out, coordViol("reply-differs-from-stored-assignment", "%s was sent %s but the coordinator stores %s", who, coordAssignString(r.Assign), coordAssignString(stored[me])))
 	}
 	out = append(out, coordCoverCheck(w, "stored", stored, st.Post.IDs, subsOf, true)...)
+	// mechanism: a member re-joined with another subscription, was answered NONE in the same
+	// generation, and the old assignment is still handed out
+	if len(out) > 0 {
+		var resub []string
+		for _, id := range st.Post.IDs {
+			if m := w.led.M[id]; m != nil && m.ResubGen == st.ReqGen && st.ReqGen != 0 {
+				resub = append(resub, w.name(id))
+			}
+		}
+		if len(resub) > 0 {
+			for i := range out {
+				out[i].Detail = "[" + out[i].Key + "] " + out[i].Detail + fmt.Sprintf(" (members that changed their subscription in generation %d without a rebalance: %v)", st.ReqGen, resub)
+				out[i].Key = "resubscribe-without-rebalance"
+			}
+		}
+	}
 	return out
 }
 
